@@ -313,7 +313,18 @@ func (e *Engine) model(st *State, fr *Frame, x *ssa.Call, callee *ssa.Function, 
 			st.addLE(V(r), strLen(h))
 		}
 		set(IntV{V(r)})
-	case "strings.Contains", "strings.HasPrefix", "strings.HasSuffix", "strings.EqualFold", "strings.ContainsRune", "strings.ContainsAny":
+	case "strings.Contains", "strings.HasPrefix", "strings.HasSuffix":
+		// false when the haystack is provably shorter than the needle
+		if len(args) == 2 {
+			h, ok1 := args[0].(StrV)
+			n, ok2 := args[1].(StrV)
+			if ok1 && ok2 && e.proveLE(st, strLen(h).AddK(1), strLen(n)) {
+				set(BoolV{Known: 2})
+				break
+			}
+		}
+		set(BoolV{})
+	case "strings.EqualFold", "strings.ContainsRune", "strings.ContainsAny":
 		set(BoolV{})
 	case "strings.ToUpper", "strings.ToLower", "strings.ReplaceAll", "strings.Replace", "strings.TrimLeftFunc", "strings.TrimRightFunc", "strings.TrimFunc", "strings.TrimSpace", "strings.Trim", "strings.TrimLeft", "strings.TrimRight", "strings.TrimPrefix", "strings.TrimSuffix", "strings.Repeat", "strings.Title", "strings.Map":
 		set(freshStr(callee.Name()))
